@@ -18,6 +18,10 @@ theorem registries_equal : allSpaces (registryEqual pcRows) = true := by decide 
     bit for bit, under the same names (`import_units`: constants are imported first and win) -/
 theorem top_level_is_physical_constants : bitwiseEqual pcRows topRows = true := by decide +kernel
 
+/-- the SI scale and dimension recorded for the unit string of every row of `physical_constants`
+    are those the regenerated unit table gives for its factors (`kg` = k·g, `mol**-1`, `N/A**2` …) -/
+theorem const_units_resolve : constUnitsOk = true := by decide +kernel
+
 /-! ### values against the published ones; doubles against the symbolic definitions -/
 
 def C15_values_full : Prop := valuesInClass [] = true
